@@ -86,8 +86,10 @@ def spec_programs(draw, max_bodies=5, unsafe_order=True):
     labels.append('specapi:frame')
   if any(b['childclass'] for b in bodies):
     labels.append('specapi:childclass')
+  hasframe = any(b['frame'] for b in bodies) or any(g['frame'] for b in bodies for g in b['geoms'])
   if unsafe:
     labels.append('frame-order-unsafe')
+  unsafe = hasframe      # the known reordering needs a frame; the check still demands 'same objects, different order'
   return dict(classes=classes, bodies=bodies, opt=opt, labels=labels, unsafe=unsafe)
 
 
